@@ -1,6 +1,6 @@
 import SamVerif.Props.C09
 /-! Axiom audit of every C09 property theorem (parsed by vlib/common.py). -/
-open SamVerif.Doc SamVerif.CommentQueue SamVerif.Imports
+open SamVerif.Doc SamVerif.CommentQueue SamVerif.Imports SamVerif.Attach
 #print axioms layout_is_linearisation
 #print axioms layout_preserves_text
 #print axioms render_only_whitespace
@@ -23,3 +23,9 @@ open SamVerif.Doc SamVerif.CommentQueue SamVerif.Imports
 #print axioms imports_group_exact
 #print axioms imports_conserve_comments
 #print axioms imports_comments_move_with_line
+#print axioms keepParen_conserves
+#print axioms printCE_normalize
+#print axioms normalize_of_nf
+#print axioms attach_same_text
+#print axioms attachLeft_stable
+#print axioms attachOuter_unstable_counterexample
